@@ -937,6 +937,14 @@ def c_index_products_wide(db, rep, rule):
             t = lit.get("str", "") if lit is not None and lit.k == "StringLiteral" else ""
             m = re.search(r"ptr%d\[([^\]]*\bi\)?\s*\*\s*%s[^\]]*)\]", t)
             if not m:
+                # the position kept in a local first (`int tmp = p1 + i * p2;  ... ptr[tmp>>16]`): the local's type is the width
+                m2 = re.search(r"^\s*([A-Za-z_][A-Za-z_0-9 ]*?)\s+tmp\s*=\s*%s\s*\+[^;]*\bi\)?\s*\*\s*%s", t)
+                if m2:
+                    n += 1
+                    rep.saw(f)
+                    rep.check(m2.group(1).strip() in WIDE, rule, where(f), "c-backend:position-local@%s" % c.line, "the 16.16 position is kept in a 64-bit local",
+                              "%s prints `%s`: the position wraps negative after 32768 elements at scale 1.0 and the load reads before the source array - in "
+                              "generated C and, through the same template, in the emulator itself" % (f.name, t.strip()[:70]), line=c.line)
                 continue
             n += 1
             rep.saw(f)
